@@ -138,6 +138,12 @@ def options(cfg):
         kw["wrot"] = np.eye(nsites)
     elif cfg.get("wrot") == "2I":
         kw["wrot"] = 2 * np.eye(nsites)
+    elif cfg.get("wrot") == "cyclic":
+        kw["wrot"] = np.roll(np.eye(nsites), 1, axis=1)                     # a non-symmetric permutation
+    elif cfg.get("wrot") == "triangular":
+        kw["wrot"] = np.eye(nsites) + 0.5 * np.eye(nsites, k=1)             # upper bidiagonal
+    if cfg.get("h_shift"):
+        kw["h"] = _custom_header(nsites, cfg["h_shift"])
     if cfg.get("nc_out"):
         kw["nc_out"] = cfg["nc_out"]
     if cfg.get("reject"):
@@ -147,6 +153,17 @@ def options(cfg):
     if cfg.get("float32"):
         kw["dtype"] = np.float32
     return kw
+
+
+def _custom_header(nsites, kind):
+    """a header handed over explicitly: same sites, other sampling delays"""
+    x = np.array([27.0 + 32 * (i % 2) for i in range(nsites)])
+    y = np.array([20.0 + 15 * (i // 2) for i in range(nsites)])
+    if kind == "thirteenths":
+        sh = (np.arange(nsites) % 12) / 13.0
+    else:
+        sh = ((np.arange(nsites) * 5) % 16) / 16.0
+    return {"x": x, "y": y, "sample_shift": sh, "col": np.arange(nsites) % 2, "row": np.arange(nsites) // 2, "shank": np.zeros(nsites)}
 
 
 def execute(fbin, outdir, cfg, p, schedule=None, append_runs=1):
@@ -185,7 +202,7 @@ def reference(fbin, cfg):
     N = cfg["nbatch"]
     kw = options(cfg)
     sr = spikeglx.Reader(fbin)
-    h = sr.geometry
+    h = kw.get("h") or sr.geometry
     ncv = h["sample_shift"].size
     ns, nc = sr.ns, sr.nc
     nc_out = kw.get("nc_out") or nc
@@ -247,6 +264,9 @@ def config_cases(tier, seed):
               # many workers on a short recording: a worker's first batch would lie past the last one
               dict(nsites=4, ns=5000, nbatch=4096, pmax=6), dict(nsites=4, ns=2560 + 700, nbatch=2560, pmax=6),
               dict(base, no_rms=True), dict(base, float32=True), dict(base, float32=True, ns2add=33, wrot="2I"),
+              dict(base, wrot="cyclic"), dict(base, wrot="triangular", nc_out=4),
+              # two runs in one process whose headers differ only by their sampling delays (same channel count and batch size)
+              dict(base, h_shift="thirteenths", then=dict(base, h_shift="other")), dict(base, then=dict(base, h_shift="thirteenths")),
               # recordings not longer than one batch
               dict(nsites=4, ns=4096, nbatch=4096, pmax=3), dict(nsites=4, ns=3000, nbatch=4096, pmax=4), dict(nsites=4, ns=2049, nbatch=2560, pmax=2),
               dict(base, append=True, ns=4096 + 2048 + 1), dict(nsites=4, ns=3 * 2560, nbatch=2560, pmax=4, append=True, ns2add=7)]
@@ -254,6 +274,16 @@ def config_cases(tier, seed):
 
 
 def config_check(cfg):
+    if cfg.get("then"):
+        first = {k: v for k, v in cfg.items() if k != "then"}
+        r1 = _config_check(first)
+        r2 = _config_check(dict(cfg["then"], pmax=2))
+        v = list(r1.v) + [(k + ":second-call-in-process", "after a run with another header in the same process: " + m) for k, m in r2.v]
+        return Res(v, o=("then",) + tuple(r1.o), tr=r1.tr + r2.tr, x=r1.x, s=r1.s)
+    return _config_check(cfg)
+
+
+def _config_check(cfg):
     d = os.path.join(synth.proc_scratch(), "c06")
     shutil.rmtree(d, ignore_errors=True)
     os.makedirs(d)
